@@ -5,7 +5,7 @@ from .. import rt, framework as fw
 from . import _scn
 
 NOTICE = "Please update to the latest ascmhl version using `pip3 install -U ascmhl`."
-BEHAVIOURS = ["newer", "older", "same", "pre", "dev", "garbage", "notag", "list", "nojson", "http404", "http500", "connerr", "timeout", "oserror", "slow", "late", "hang", "garbage_slow", "notag_slow", "longtag", "hugetag", "srv:ok", "srv:stall_headers", "srv:stall_body", "srv:stall_midbody", "srv:close_midbody", "srv:trickle"]
+BEHAVIOURS = ["newer", "older", "same", "pre", "dev", "garbage", "notag", "list", "nojson", "http404", "http500", "connerr", "timeout", "oserror", "slow", "late", "hang", "garbage_slow", "notag_slow", "longtag", "hugetag", "digittag", "dottag", "srv:ok", "srv:stall_headers", "srv:stall_body", "srv:stall_midbody", "srv:close_midbody", "srv:trickle"]
 PY = "/venv/bin/python"
 
 
